@@ -50,3 +50,4 @@ pub proof fn lemma_dbm(y: int)
 pub uninterp spec fn dur_secs(d: std::time::Duration) -> int;
 pub assume_specification[ std::time::Duration::as_secs ](d: &std::time::Duration) -> (r: u64)
     ensures r == dur_secs(*d);
+
